@@ -4,6 +4,7 @@
 package main
 
 import (
+	"github.com/xtaci/smux"
 	"fmt"
 	"net"
 	"runtime"
@@ -32,6 +33,148 @@ func sessionSnap(srv *sadns.ServerDnsListener, c net.Conn) string {
 	}
 	inN, outN, outLen, frag := sadns.VerifUserState(c)
 	return fmt.Sprintf("%s/%d/%d/%d/%d/%v", where, inN, outN, outLen, frag, sadns.VerifUserClosed(c))
+}
+
+// fixedAnswerComm answers every query of the client with one fixed answer section (given as raw rdata per record), packed on the wire
+type fixedAnswerComm struct {
+	closed bool
+	rrs    []Tok // (<rrtype> <#rdata>)*
+	n      int
+	honest int             // the first `honest` exchanges are answered by a real server
+	server *fakeServerComm // (nil: none)
+}
+
+func (s *fixedAnswerComm) Close() error                       { s.closed = true; return nil }
+func (s *fixedAnswerComm) Closed() bool                       { return s.closed }
+func (s *fixedAnswerComm) LocalAddr() net.Addr                { return addrN(1) }
+func (s *fixedAnswerComm) RemoteAddr() net.Addr               { return memAddr("dns-server") }
+func (s *fixedAnswerComm) SetDeadline(t time.Time) error      { return nil }
+func (s *fixedAnswerComm) SetReadDeadline(t time.Time) error  { return nil }
+func (s *fixedAnswerComm) SetWriteDeadline(t time.Time) error { return nil }
+func (s *fixedAnswerComm) SendAndReceive(m *dns.Msg, timeout *time.Duration) (*dns.Msg, time.Duration, error) {
+	s.n++
+	if s.server != nil && s.n <= s.honest {
+		mw, err := wire(m)
+		if err != nil {
+			return nil, 0, err
+		}
+		r, err := s.server.handler(mw, addrN(1))
+		if err != nil || r == nil {
+			return nil, 0, smux.ErrTimeout
+		}
+		rw, err := wire(r)
+		return rw, 0, err
+	}
+	if s.n > 400 {
+		s.closed = true // a client that keeps asking for ever is cut off here (and reported by the operation's time limit otherwise)
+		return nil, 0, net.ErrClosed
+	}
+	q, err := m.Pack()
+	if err != nil || len(m.Question) == 0 {
+		return nil, 0, err
+	}
+	n := len(s.rrs) / 2
+	buf := []byte{byte(m.Id >> 8), byte(m.Id), 0x84, 0, 0, 1, byte(n >> 8), byte(n), 0, 0, 0, 0}
+	// the question section as the client sent it
+	end := 12
+	for q[end] != 0 {
+		end += int(q[end]) + 1
+	}
+	end += 5
+	buf = append(buf, q[12:end]...)
+	for i := 0; i < n; i++ {
+		t := int(s.rrs[2*i].I)
+		rd := s.rrs[2*i+1].B
+		buf = append(buf, 0xC0, 12, byte(t>>8), byte(t), 0, 1, 0, 0, 0, 1, byte(len(rd)>>8), byte(len(rd)))
+		buf = append(buf, rd...)
+	}
+	r := &dns.Msg{}
+	if err := r.Unpack(buf); err != nil {
+		return nil, 0, err
+	}
+	return r, 0, nil
+}
+
+func init() {
+	opTimeout["c12h"] = 60 * time.Second
+	// c12h <k> (<rrtype> <#rdata>)*   a whole client handshake: the first k queries are answered by a real server, every later one with
+	//   this fixed answer section (k = 0: from the start)
+	//  -> hs ok | hs err | panic <site>   (exchanges <n>)
+	register("c12h", func(a []Tok) []Tok {
+		sc := &fakeServerComm{}
+		srv := sadns.NewServerDnsListener(testDomain, sc)
+		_ = srv
+		defer sc.Close()
+		comm := &fixedAnswerComm{rrs: a[1:], honest: int(a[0].I), server: sc}
+		cl, err := sadns.NewClientDnsConnection(testDomain, comm)
+		if err != nil {
+			return []Tok{TW("hs"), TW("err"), TW("exchanges"), TI(0)}
+		}
+		err = cl.Handshake()
+		comm.closed = true
+		w := "ok"
+		if err != nil {
+			w = "err"
+		}
+		return []Tok{TW("hs"), TW(w), TW("exchanges"), TIn(comm.n)}
+	})
+	opTimeout["c12q"] = 12 * time.Second
+	// c12q <expected next sequence number> <qtype> <qclass> <nquestions> <from-owner 0/1> <#label>*   as c12s, but the established
+	//   session has already received packets up to the given sequence number (the numbers wrap at 65536)
+	//  -> unpackable | (answered | noanswer | panic <site>) future <n> next <n>
+	register("c12q", func(a []Tok) []Tok {
+		inseq := uint16(a[0].I)
+		a = a[1:]
+		nq := int(a[2].I)
+		buf := []byte{0, 77, 0x01, 0, byte(nq >> 8), byte(nq), 0, 0, 0, 0, 0, 0}
+		for i := 0; i < nq; i++ {
+			for _, l := range a[4:] {
+				buf = append(buf, byte(len(l.B)))
+				buf = append(buf, l.B...)
+			}
+			buf = append(buf, 0, byte(a[0].I>>8), byte(a[0].I), byte(a[1].I>>8), byte(a[1].I))
+		}
+		mw := &dns.Msg{}
+		if err := mw.Unpack(buf); err != nil {
+			return []Tok{TW("unpackable")}
+		}
+		sc := &fakeServerComm{}
+		srv := sadns.NewServerDnsListener(testDomain, sc)
+		defer sc.Close()
+		ser := clientSerializer(util.QueryTypeNull, enc.Base32Encoding, enc.Base32Encoding)
+		acc := make(chan net.Conn, 2)
+		go func() {
+			c, err := srv.Accept()
+			if err == nil {
+				acc <- c
+			}
+		}()
+		if _, err := exchange(sc, ser, &commands.VersionRequest{ClientVersion: uint32(sadns.ProtocolVersion)}, addrN(1)); err != nil {
+			return []Tok{TW("setup-failed")}
+		}
+		sess := <-acc
+		sadns.VerifSetInSeq(sess, inseq)
+		from := net.Addr(addrN(9))
+		if a[3].I == 1 {
+			from = addrN(1)
+		}
+		var out []Tok
+		func() {
+			defer func() {
+				if r := recover(); r != nil {
+					out = []Tok{TW("panic"), TW(panicSite())}
+				}
+			}()
+			if r, err := sc.handler(mw, from); err == nil && r != nil {
+				out = []Tok{TW("answered")}
+			} else {
+				out = []Tok{TW("noanswer")}
+			}
+		}()
+		future, _ := sadns.VerifUserIn(sess)
+		next, _, _, _ := sadns.VerifUserState(sess)
+		return append(out, TW("future"), TIn(future), TW("next"), TIn(int(next)))
+	})
 }
 
 func init() {
